@@ -170,6 +170,13 @@ def c07(run):
     units.product_unit(run, fd, srcs[:6], tbl_cfgs(["-Cf", "-CF", "-Cfe"], reject=(True,)), tag="refusal")
 
 
+def scanner_args(c):
+    from . import scanner
+    cc = dict(scanner.DEFAULT_CFG); cc.update(c.cfg)
+    if c.src.get("sevenbit"): cc["bits"] = 7
+    return scanner.flex_args(cc)
+
+
 @check("C17")
 def c17(run):
     fd = build.build_flex()
@@ -200,6 +207,24 @@ def c17(run):
                     p = next(s[2] for s in c.states if s[1] == nr + 1)
                     run.violation("warn:missing-default", "-s given, input %s falls through to the default rule of %s, but flex did not warn" % (p, c.src.get("name")),
                                   dict(path=p, cfg=c.cfg), [c.gen["l"]])
+    # -w / --nowarn only silences the warnings: the generated scanner is the same, byte for byte
+    import subprocess
+    wd = os.path.join(run.work, "nowarn"); os.makedirs(wd, exist_ok=True)
+    for c in [c for c in cases if c.status == "ok"][:12 if q else 60]:
+        outs = []
+        for tag_, args in (("plain", []), ("w", ["-w"]), ("nowarn", ["--nowarn"])):
+            cp = os.path.join(wd, "s.c")       # same output name: the #line directives agree
+            p = subprocess.run([os.path.join(fd, "flex")] + scanner_args(c) + args + ["-o", cp, c.gen["l"]], stdout=subprocess.PIPE, stderr=subprocess.PIPE, text=True)
+            outs.append((p.returncode, open(cp).read() if p.returncode == 0 and os.path.exists(cp) else None, p.stderr))
+        run.note_case(dict(c=c.id, k="nowarn"))
+        for k_ in (1, 2):
+            if outs[k_][0] != outs[0][0] or outs[k_][1] != outs[0][1]:
+                run.violation("warn:nowarn-changes-scanner", "flex %s on %s: suppressing warnings changed the result (exit %s vs %s, scanner %s)"
+                              % (("-w", "--nowarn")[k_ - 1], c.src.get("name"), outs[k_][0], outs[0][0], "differs" if outs[k_][1] != outs[0][1] else "same"), dict(cfg=c.cfg), [c.gen["l"]])
+                break
+            if "warning" in outs[k_][2]:
+                run.violation("warn:nowarn-ignored", "flex %s on %s still prints warnings: %s" % (("-w", "--nowarn")[k_ - 1], c.src.get("name"), outs[k_][2][:200]), dict(cfg=c.cfg), [c.gen["l"]])
+                break
     run.assumptions.append("for REJECT / variable trailing context rule sets only 'no false warning' is checked (as the property states)")
 
 
@@ -578,6 +603,12 @@ def c16(run):
     OPTS = [[], ["-Cf"], ["-CF"], ["-Ca"], ["-Ce"], ["-Cm"], ["-7"], ["-B"], ["-I"], ["-i"], ["-l"], ["-X"], ["-d"], ["-p"], ["-s"], ["-w"],
             ["-v"], ["-L"], ["-R"], ["-Cfe"], ["--bison-bridge", "-R"], ["-T"], ["--stdinit"], ["--nounistd"], ["-P", "zz"], ["--yylineno"]]
     jobs = []
+    # valid specifications using the less common directives of the definitions section (#line, %pointer/%array,
+    # %top, start-condition declarations with several names, comments, indented code, long definitions)
+    directives = (b"#line 7 \"other.l\"\n%option noyywrap\n%pointer\n/* a comment */\n  /* indented */ static int n0;\n%top{\n#include <stdio.h>\n}\n"
+                  b"%s A B\n%x C\nDIGIT  [0-9]\nID     [a-z][a-z0-9]*\n#line 40 \"third.l\"\n%%\n{DIGIT}+   n0++;\n<A,B>{ID}  n0 += 2;\n<C>.       ;\n.|\\n      ;\n%%\n"
+                  b"int main(void) { while (yylex()) ; printf(\"%d\\n\", n0); return 0; }\n")
+    valid = [("directives", directives, None)] + valid
     # (a) every requested output x every write-failure mode, on valid input
     for name, text, _ in valid[:3 if q else 10]:
         for want in (("scanner",), ("scanner", "header"), ("scanner", "tables"), ("scanner", "backup"), ("scanner", "header", "tables", "backup")):
@@ -970,11 +1001,13 @@ def _prefix_unit(run, fd, srcs):
     from . import scanner
     wd = os.path.join(run.work, "prefix"); os.makedirs(wd, exist_ok=True)
     objs = []; expect = {}
-    for pfx, src, extra in (("aa", srcs[0], ""), ("bb", srcs[1 % len(srcs)], ""), ("cc", srcs[2 % len(srcs)], " reentrant")):
+    # (dd, ee: bison-bridge scanners with locations - their accessor functions are prefixed like everything else)
+    for pfx, src, extra in (("aa", srcs[0], ""), ("bb", srcs[1 % len(srcs)], ""), ("cc", srcs[2 % len(srcs)], " reentrant"),
+                            ("dd", srcs[0], " reentrant bison-bridge bison-locations"), ("ee", srcs[1 % len(srcs)], " reentrant bison-bridge bison-locations")):
         s = json.loads(json.dumps(src))
         for k, r in enumerate(s["rules"]): r["action"] = "{ %s_hits[%d]++; }" % (pfx, k)
         names = ["%option noyywrap prefix=\"" + pfx + "\"" + extra] + [("%x " if c["excl"] else "%s ") + c["name"] for c in s["scs"][1:]]
-        text = "\n".join(names + ["%{", "int %s_hits[64];" % pfx, "%}"] + scanner.render_defs(s, s.get("posix", False)) + ["%%"] +
+        text = "\n".join(names + ["%{", "int %s_hits[64];" % pfx] + (["typedef int YYSTYPE; typedef struct { int first_line; } YYLTYPE;"] if "bison" in extra else []) + ["%}"] + scanner.render_defs(s, s.get("posix", False)) + ["%%"] +
                          [l.replace("{ VEOF(", "{ return 0; /* ").replace(") }", " */ }") if "VEOF(" in l else l for l in scanner.render_rules(s, s.get("posix", False))] + ["%%", ""])
         lp = os.path.join(wd, pfx + ".l"); open(lp, "w", encoding="latin-1").write(text)
         p = subprocess.run([os.path.join(fd, "flex"), "-o", os.path.join(wd, pfx + ".c"), lp], stdout=subprocess.PIPE, stderr=subprocess.PIPE, text=True)
@@ -991,7 +1024,7 @@ def _prefix_unit(run, fd, srcs):
     unpref = sorted(s for s in syms if s.startswith("yy"))
     run.note_case("prefix-link"); run.note_case("prefix-symbols")
     if dup or unpref:
-        run.violation("prefix:clash", "scanners generated with prefixes aa/bb/cc define clashing or unprefixed external symbols: duplicates %s, unprefixed %s" % (dup[:8], unpref[:8]), {}, [])
+        run.violation("prefix:clash", "scanners generated with prefixes aa/bb/cc/dd/ee define clashing or unprefixed external symbols: duplicates %s, unprefixed %s" % (dup[:8], unpref[:8]), {}, [])
     main = os.path.join(wd, "main.c")
     open(main, "w").write('#include <stdio.h>\nextern int aalex(void); extern int bblex(void); typedef void *yyscan_t; extern int cclex_init(yyscan_t *); extern int cclex(yyscan_t); extern int cclex_destroy(yyscan_t);\n'
                           'extern void *aa_scan_string(const char *); extern void *bb_scan_string(const char *); extern void *cc_scan_string(const char *, yyscan_t);\n'
